@@ -133,7 +133,27 @@ def r14_1(ctx, g):
     # add_edge translates orientations through E_DIR
     ae = g.add_edge
     tr = [st for st in walk_own(ae.node) if isinstance(st, ast.Assign) and isinstance(st.value, ast.Subscript) and norm(st.value.value) == g.edir_name]
-    ok = len(tr) == 1 and isinstance(tr[0].targets[0], ast.Tuple) and [norm(e) for e in tr[0].targets[0].elts] == ae.params[2:5:2] and norm(tr[0].value.slice).replace("(", "").replace(")", "") == f"{ae.params[2]}, {ae.params[4]}"
+    ok = len(tr) == 1 and isinstance(tr[0].targets[0], ast.Tuple) and len(tr[0].targets[0].elts) == 2 and all(isinstance(e, ast.Name) for e in tr[0].targets[0].elts) and norm(tr[0].value.slice).replace("(", "").replace(")", "") == f"{ae.params[2]}, {ae.params[4]}"
+    if ok:
+        # the first translated side is the one that selects node1's adjacency set, the second node2's
+        s1, s2 = [e.id for e in tr[0].targets[0].elts]
+        n1, n2 = ae.params[1], ae.params[3]
+        for vp in gc.endpoint_mutations(ctx, ae, "add"):
+            for recv, meth, _args in vp.muts:
+                who = n1 if n1 in recv and n2 not in recv else (n2 if n2 in recv else None)
+                side_var = s1 if who == n1 else s2
+                at_start = meth.endswith("_start")
+                decided = [(t, pol) for t, pol in vp.tests if t in (f"{side_var} == 0", f"{side_var} == 1")]
+                other = [(t, pol) for t, pol in vp.tests if t in (f"{s2 if side_var == s1 else s1} == 0", f"{s2 if side_var == s1 else s1} == 1")]
+                if who is None:
+                    continue
+                if not decided:
+                    ok = False
+                for t, pol in decided:
+                    if (t.endswith("== 0")) == pol:
+                        ok = ok and at_start
+                    else:
+                        ok = ok and not at_start
     ctx.check(ok, "R14.1", ae.where(), "add_edge converts (orientation of node1, orientation of node2) to sides through the table, in that order", key_of(ae, f"edir-use:{[norm(t) for t in tr]}"))
 
 
